@@ -27,6 +27,8 @@ type cand struct {
 	okBySignature bool
 	// orig: for tampered candidates the untampered validly signed transaction (used to warm the signature cache)
 	orig *lib.Transaction
+	// after: must be placed AFTER the round's authorized transaction (it targets the object that one creates)
+	after bool
 	// nontrivial: reaches CheckSignature (passes CheckBasic + Check()) although unauthorized/tampered, or is authorized by a non-owner key
 	nontrivial bool
 }
@@ -530,4 +532,75 @@ func rlpImpersonation(rt *rapid.T, w *world) *cand {
 	x.desc = fmt.Sprintf("%s send signed by the attacker's eth key, wrapper relabelled to victim eth%d (%s)", cs.SignerKindName(att.Kind), victimKey, how)
 	x.class = []string{"bad=rlp-impersonation", "impersonation=" + how, "msg=send", "signer=" + cs.SignerKindName(att.Kind)}
 	return x
+}
+
+// dependentForgeries: the round's authorized transaction CREATES an object (stake -> validator, create-order -> order). These
+// candidates come later in the SAME block and operate on that object - redirect the fresh validator's output, unstake / pause
+// it, edit / delete the fresh order - naming the owner's public key with a garbage signature, with the attacker's signature
+// relabelled to the owner's key, or validly signed by a stranger. At block start the object does not exist; none may execute.
+func dependentForgeries(rt *rapid.T, w *world, good *cand, p payload) (out []*cand) {
+	var msgs []lib.MessageI
+	switch m := good.msg.(type) {
+	case *fsm.MessageStake:
+		va := targetValidator(m)
+		if va == nil {
+			return nil
+		}
+		msgs = append(msgs, &fsm.MessageEditStake{Address: va, Amount: m.Amount, Committees: m.Committees, NetAddress: m.NetAddress, OutputAddress: attacker.Address(), Compound: m.Compound},
+			&fsm.MessageUnstake{Address: va})
+		if !m.Delegate {
+			msgs = append(msgs, &fsm.MessagePause{Address: va})
+		}
+	case *fsm.MessageCreateOrder:
+		id := crypto.Hash(good.bz)[:20]
+		msgs = append(msgs, &fsm.MessageEditOrder{OrderId: id, ChainId: m.ChainId, Data: m.Data, AmountForSale: m.AmountForSale, RequestedAmount: 1, SellerReceiveAddress: attacker.Address()},
+			&fsm.MessageDeleteOrder{OrderId: id, ChainId: m.ChainId})
+	default:
+		return nil
+	}
+	// the owners' single keys (their public keys are public knowledge once the creating transaction is gossiped)
+	var owners []cs.Signer
+	for _, g := range p.rightful {
+		if g[0].Kind <= cs.KindEth {
+			owners = append(owners, cs.Signer{Kind: g[0].Kind, Key: g[0].Key})
+		}
+	}
+	for i, n := 0, rapid.IntRange(1, 3).Draw(rt, "n-dependent"); i < n; i++ {
+		msg := pick(rt, "dependent-msg", msgs)
+		how := pick(rt, "forgery", []string{"owner-key+garbage-signature", "owner-key+attackers-signature", "stranger"})
+		if len(owners) == 0 {
+			how = "stranger"
+		}
+		var x *cand
+		switch how {
+		case "stranger":
+			c, ok := signedCand(rt, w, attacker, msg)
+			if !ok {
+				continue
+			}
+			x = c
+		default:
+			owner := pick(rt, "forged-owner", owners)
+			att := cs.Signer{Kind: owner.Kind, Key: 66}
+			c, ok := signedCand(rt, w, att, msg)
+			if !ok {
+				continue
+			}
+			c.tx.Signature.PublicKey = owner.PublicKey()
+			if how == "owner-key+garbage-signature" {
+				g := crypto.Hash(append([]byte("garbage"), c.bz...))
+				sig := c.tx.Signature.Signature
+				for j := range sig {
+					sig[j] = g[j%len(g)] ^ byte(j)
+				}
+			}
+			c.bz, c.signer, c.okBySignature = cs.MustMarshal(c.tx), owner.Address(), false
+			x = c
+		}
+		x.after = true
+		x.desc = fmt.Sprintf("%s of the object created earlier in this block, %s", msg.Name(), how)
+		x.class = []string{"bad=targets-object-created-in-this-block", "forgery=" + how, "msg=" + msg.Name()}
+		out = append(out, x)
+	}
+	return out
 }
